@@ -143,7 +143,7 @@ type FatalRegress struct {
 
 func init() {
 	if name := os.Getenv("C13_CHILD"); name != "" {
-		debug.SetMaxStack(24 << 20)
+		debug.SetMaxStack(4 << 20)
 		for _, fc := range fatalCases() {
 			if fc.Name == name {
 				fmt.Println("C13-CHILD-OK", fc.Run())
